@@ -312,6 +312,18 @@ static void case_poly(uint64_t seed) {
             if (e2 != E_MEMORY_BOUNDS) vf_violation("wrong-code", "polygonToCellsExperimental", key ^ m ^ 0x50, "", "mode %s capacity %" PRId64 " for %" PRId64 " cells: rc=%u expected E_MEMORY_BOUNDS(14) (%s)", MN[m], raw - 1, raw, e2, desc);
             if (vf_buf_check(sm)) vf_violation("overrun", "polygonToCellsExperimental", key ^ m ^ 0x51, "", "mode %s wrote beyond a capacity of %" PRId64, MN[m], raw - 1);
             vf_buf_free(sm);
+            /* capacities anywhere below the count (a fill that emits coarse cells and expands them must check the room for
+             * every child, not once per coarse cell): two per mode, exact-size buffers */
+            for (int t = 0; t < 2 && raw >= 2; t++) {
+                int64_t cap = (int64_t)(vf_mix(key ^ (uint64_t)(m * 4 + t) ^ 0xCA9) % (uint64_t)(raw - 1));
+                H3Index *sc = vf_buf_new((size_t)cap * 8, 0);
+                e2 = polygonToCellsExperimental(&P.gp, res, m, cap, sc);
+                ledger_clean("polygonToCellsExperimental", key, desc);
+                vf_add("capacity.random_short_calls", 1);
+                if (e2 != E_MEMORY_BOUNDS) vf_violation("wrong-code", "polygonToCellsExperimental", key ^ m ^ 0x52, "", "mode %s capacity %" PRId64 " for %" PRId64 " cells: rc=%u expected E_MEMORY_BOUNDS(14) (%s)", MN[m], cap, raw, e2, desc);
+                if (vf_buf_check(sc)) vf_violation("overrun", "polygonToCellsExperimental", key ^ m ^ 0x53, "", "mode %s wrote beyond a capacity of %" PRId64 " (%" PRId64 " cells)", MN[m], cap, raw);
+                vf_buf_free(sc);
+            }
         }
         vf_buf_free(o);
     }
